@@ -42,6 +42,11 @@ type LinearState struct {
 
 	cachedRules map[string]*Rule
 
+	// cachedFrom remembers, for each cached rule, the stored rule
+	// body it was parsed from.  A cached rule is used only for
+	// that very body.
+	cachedFrom map[string]Map
+
 	// cacheMutex guards cachedRules, which is touched by callers
 	// that do not (and need not) hold the state lock.
 	cacheMutex sync.Mutex
@@ -549,6 +554,13 @@ func (s *LinearState) FindCachedRules(ctx *Context, event Map) (map[string]*Rule
 	for id, r := range rules {
 		s.cacheMutex.Lock()
 		cached, isCached := s.cachedRules[id]
+		if isCached && !sameRuleBody(s.cachedFrom[id], r) {
+			// The rule has been replaced since that version was
+			// parsed.  (A lookup that overlapped the replacement
+			// can have cached the previous version after the
+			// writer dropped the cache entry.)
+			isCached = false
+		}
 		s.cacheMutex.Unlock()
 		if isCached {
 			acc[id] = cached
@@ -564,6 +576,10 @@ func (s *LinearState) FindCachedRules(ctx *Context, event Map) (map[string]*Rule
 			acc[id] = rule
 			s.cacheMutex.Lock()
 			s.cachedRules[id] = rule
+			if s.cachedFrom == nil {
+				s.cachedFrom = make(map[string]Map)
+			}
+			s.cachedFrom[id] = r
 			s.cacheMutex.Unlock()
 		}
 	}
@@ -689,6 +705,7 @@ func (s *LinearState) expire(ctx *Context, id string, fact map[string]interface{
 func (s *LinearState) forgetCachedRule(id string) {
 	s.cacheMutex.Lock()
 	delete(s.cachedRules, id)
+	delete(s.cachedFrom, id)
 	s.cacheMutex.Unlock()
 }
 
@@ -696,5 +713,6 @@ func (s *LinearState) forgetCachedRule(id string) {
 func (s *LinearState) resetCachedRules() {
 	s.cacheMutex.Lock()
 	s.cachedRules = make(map[string]*Rule)
+	s.cachedFrom = nil
 	s.cacheMutex.Unlock()
 }
